@@ -135,6 +135,7 @@ Definition guarded (c : call) : bool :=
   | SSetVar _ _ _ n order => (2 <? order)
   | SDyadic al nc oc na oa nb ob => (al =? 0) && (nc =? Z.max na nb) && (oc =? Z.max oa ob)
   | AEntry alg r c opt =>
+      (0 <=? r) && (0 <=? c) &&
       if (alg =? 0) || (alg =? 1) || (alg =? 2) || (alg =? 8) || (alg =? 9) || (alg =? 10) then (opt =? 0) || (opt =? 2)
       else if (alg =? 3) || (alg =? 4) then (opt =? 0)
       else if alg =? 6 then (c <=? r) && (0 <? r)
@@ -148,6 +149,15 @@ Definition total (c : call) : bool :=
   (* scalars of order 0 carry no partial derivatives (N = 0): the state every constructor produces *)
   | SDyadic al nc oc na oa nb ob =>
       (0 <=? na) && (0 <=? nb) && ((1 <=? oa) || (na =? 0)) && ((1 <=? ob) || (nb =? 0))
+  | _ => true
+  end.
+
+(* operations for which the success half (valid use => Ok, expected shape, no access outside the
+   storage) is proved for all shapes; the others are tied by the exhaustive small-shape replay only *)
+Definition ok_covered (c : call) : bool :=
+  match c with
+  | VPermute _ _ | VNewSparse _ _ _ | MNewSparse _ _ _ _ _
+  | MPermRows _ _ | MPermCols _ _ | MSymPerm _ _ => false
   | _ => true
   end.
 
